@@ -72,7 +72,7 @@ package nfs
 //@ specfunc txOpen(op *fstxn.FsTxn) = op != nil && opOpen(op) && cphase == 0 && dirtyInv() && allocInv()
 
 //@ define TXALLOC fstxn.FsTxn, alloctxn.AllocTxn, jrnl.Op, []uint64, map[uint64]*inode.Inode, cache.Cslot, inode.Inode, buf.Buf, marshal.Dec, marshal.Enc, cell:uint64, []uint8, addr.Addr
-//@ define TXMODS held, lastst, curop, freshinum, wroteinum, cphase, abits, dirtyinum, cache.Cslot.Obj, map[uint64]*inode.Inode, nfs.Nfs.stats
+//@ define TXMODS held, lockedn, lastst, curop, freshinum, wroteinum, cphase, abits, dirtyinum, cache.Cslot.Obj, map[uint64]*inode.Inode, nfs.Nfs.stats
 //@ define SHRINKMODS dshrinks, shrinkdue, muheld, inode.Inode.ShrinkSize, []uint64@inode.Inode.blks, []uint64@alloctxn.AllocTxn.freeBnums, alloctxn.AllocTxn.freeBnums, buf.Buf.dirty, []uint8@buf.Buf.Data, zeroed
 //@ define FILEMODS tailzeroedto, inode.Inode.Size, inode.Inode.ShrinkSize, inode.Inode.Atime, inode.Inode.Mtime, inode.Inode.Kind, inode.Inode.Nlink, inode.Inode.Gen, inode.Inode.Inum, inode.Inode.Dcache, []uint64@inode.Inode.blks, alloctxn.AllocTxn.allocBnums, []uint64@alloctxn.AllocTxn.allocBnums, alloctxn.AllocTxn.freeBnums, []uint64@alloctxn.AllocTxn.freeBnums, alloctxn.AllocTxn.allocInums, []uint64@alloctxn.AllocTxn.allocInums, alloctxn.AllocTxn.freeInums, []uint64@alloctxn.AllocTxn.freeInums, buf.Buf.dirty, []uint8@buf.Buf.Data, zeroed, nldec
 //@ define DIRMODS lastremoved, emptychecked, dcache.Dcache.Lastoff, nfstypes.Entry3, cell:*nfstypes.Entry3, nfstypes.Entryplus3, cell:*nfstypes.Entryplus3, map[string]dcache.Dentry, emitted, emitany, emitlast, lastcookie, lastfileid, lastname, lasthino, lasthgen, lastattrid
@@ -85,7 +85,7 @@ package nfs
 //@   props C05 C06 C03 C08 C09 C11 C01
 //@   requires rpcPre(nfs)
 //@   allocates fstxn.FsTxn, alloctxn.AllocTxn, jrnl.Op, []uint64, map[uint64]*inode.Inode, cache.Cslot, inode.Inode, buf.Buf, marshal.Dec, marshal.Enc, cell:uint64, []uint8, addr.Addr
-//@   modifies held, lastst, curop, freshinum, wroteinum, cphase, abits, dirtyinum, muheld, cache.Cslot.Obj, map[uint64]*inode.Inode, inode.Inode.ShrinkSize, []uint64@inode.Inode.blks, []uint64@alloctxn.AllocTxn.freeBnums, alloctxn.AllocTxn.freeBnums, buf.Buf.dirty, []uint8@buf.Buf.Data, zeroed, dshrinks
+//@   modifies held, lockedn, lastst, curop, freshinum, wroteinum, cphase, abits, dirtyinum, muheld, cache.Cslot.Obj, map[uint64]*inode.Inode, inode.Inode.ShrinkSize, []uint64@inode.Inode.blks, []uint64@alloctxn.AllocTxn.freeBnums, alloctxn.AllocTxn.freeBnums, buf.Buf.dirty, []uint8@buf.Buf.Data, zeroed, dshrinks
 //@   ensures [open] txOpen(result0) && result0.Fs == nfs.fsstate && !muheld[base(nfs.shrinkst.mu)] @C09
 //@   ensures [H1-validated] result2 == 0 ==> goodIp(result1) && matches(result1, fh) && heldOnly(result1.Inum) @C08
 //@   ensures [F6-notshrinking] result2 == 0 ==> !result1.IsShrinking() @C05
@@ -101,7 +101,7 @@ package nfs
 //@   props C01 C02 C03 C06 C08 C09 C10 C11 C14
 //@   requires rpcPre(nfs)
 //@   allocates fstxn.FsTxn, alloctxn.AllocTxn, jrnl.Op, []uint64, map[uint64]*inode.Inode, cache.Cslot, inode.Inode, buf.Buf, marshal.Dec, marshal.Enc, cell:uint64, []uint8, addr.Addr, nfstypes.GETATTR3res
-//@   modifies held, lastst, curop, freshinum, wroteinum, cphase, abits, dirtyinum, cache.Cslot.Obj, map[uint64]*inode.Inode, nfs.Nfs.stats
+//@   modifies held, lockedn, lastst, curop, freshinum, wroteinum, cphase, abits, dirtyinum, cache.Cslot.Obj, map[uint64]*inode.Inode, nfs.Nfs.stats
 //@   ensures [R2-durable] result.Status == 0 ==> lastst == 1 @C01 @C07
 //@   ensures [A1-aborted] result.Status != 0 ==> lastst == 3 || lastst == 4 @C09
 //@   ensures [Fn6-status] result.Status == 0 || result.Status == 70 || result.Status == 10006 @C02
@@ -235,6 +235,7 @@ package nfs
 //@   requires [D4-fromscratch] noLocks() @C06
 //@   allocates $TXALLOC
 //@   modifies $TXMODS, sortperm
+//@   ghostexit lockedn = len(inums)
 //@   ensures [phase-same] cphase == old(cphase) @C01
 //@   ensures [aborted] result == nil ==> noLocks() && lastst == 3 && dirtyInv() && allocInv() && opInv(op) && curop == base(op) && listsValid(op.Atxn) @C09 @C06
 //@   ensures [locked] result != nil ==> len(result) == len(inums) && txOpen(op) && allClean() @C06 @C08
@@ -318,7 +319,7 @@ package nfs
 //@   requires [E1-cookie] uint64(start) & 127 == 0 @C13 @C11
 //@   preserves [allocInv] allocInv() @C15 @C04
 //@   allocates buf.Buf, marshal.Enc, marshal.Dec, cell:uint64, []uint8, dir.dirEnt, nfstypes.Entryplus3, cell:*nfstypes.Entryplus3, cache.Cslot, inode.Inode, []uint64, fh.Fh
-//@   modifies dip.blks[*], dirtyinum, wroteinum, abits, op.Atxn.allocBnums, []uint64@alloctxn.AllocTxn.allocBnums, []uint8@buf.Buf.Data, buf.Buf.dirty, nfstypes.Entryplus3, cell:*nfstypes.Entryplus3, emitted, emitany, emitlast, lastcookie, lastfileid, lastname, lasthino, lasthgen, lastattrid, cache.Cslot.Obj, map[uint64]*inode.Inode, held
+//@   modifies dip.blks[*], dirtyinum, wroteinum, abits, op.Atxn.allocBnums, []uint64@alloctxn.AllocTxn.allocBnums, []uint8@buf.Buf.Data, buf.Buf.dirty, nfstypes.Entryplus3, cell:*nfstypes.Entryplus3, emitted, emitany, emitlast, lastcookie, lastfileid, lastname, lasthino, lasthgen, lastattrid, cache.Cslot.Obj, map[uint64]*inode.Inode, held, lockedn
 //@   ensures [ibits-same] abits[theIalloc] == old(abits)[theIalloc] @C05
 //@   ensures [E1-sound] emitSound(dip, uint64(start), dip.Size) @C13
 //@   ensures [E3-complete] emitComplete(dip, uint64(start), ite(result.Eof, dip.Size, emitlast + 128)) @C13
@@ -497,6 +498,10 @@ package nfs
 //@   ensures [F2-scheduled] forall j uint64 :: shrinkdue[j] ==> old(shrinkdue)[j] @C05
 //@   ensures [R2-durable] result.Status == 0 ==> lastst == 1 @C01 @C07
 //@   ensures [A1-aborted] result.Status != 0 ==> lastst == 3 || lastst == 4 @C09
+// STALE answers a failed lookup of the two directory handles only; when an entry's inode vanishes
+// between the two locking phases the procedure starts over (every sequential order of the racing
+// requests gives a non-STALE answer)
+//@   ensures [Fn6-stale-on-dirs] result.Status == 70 ==> lockedn <= 2 @C03 @C02
 //@   ensures [Fn5-renamed] result.Status == 0 ==> dnames[fhIno(args.To.Dir)][args.To.Name] != 0 @C02
 //@   ensures [Fn5-source-gone] result.Status == 0 ==> dnames[fhIno(args.From.Dir)][args.From.Name] == 0 || (fhIno(args.From.Dir) == fhIno(args.To.Dir) && dnames[fhIno(args.From.Dir)][args.From.Name] == dnames[fhIno(args.To.Dir)][args.To.Name]) @C02 @C04
 //@   ensures [L2-quiet] rpcPost(nfs) @C03 @C06 @C14
